@@ -95,6 +95,7 @@ var propImports = map[string][]imp{
 		{"C01.12/limit-read-per-connection", "C16", "the receive limit a message is checked against is the one configured when its connection is accepted: a stale limit drops messages the property says are delivered", []string{"C16.11/limit-read-per-connection"}},
 	},
 	"C02": {
+		{"C02.16/framing", "C01", "each frame's length prefix is read completely before it is interpreted: a short read of the prefix turns the rest of the stream into messages nobody sent", []string{"C01.3/framing"}},
 		{"C02.15/no-peer-signal", "C18", "the 'ran out of peers' signal of PUSH is re-armed where it was raised: otherwise every send made after the last peer left and before the next one is admitted fails at once although fail-no-peers semantics only apply while there is no peer, and sends accepted later are refused", []string{"C18.4/fail-no-peers|xpush"}},
 		{"C02.13/api-copies", "C01", "Recv hands the application a private copy of the body: the delivered bytes do not change when the message is recycled", []string{"C01.8/api-copies"}},
 		{"C02.8/E3", "C11", "PAIR admission and PUSH scheduling state (and the core attach/detach flags they are driven by) is read and written under its lock: a detach decided on a stale flag never tells the protocol its peer has gone", []string{"C11.1/E3|internal/core", "C11.1/E3|protocol/xpair", "C11.1/E3|protocol/xpush", "C11.1/E3|protocol/xpull"}},
@@ -103,12 +104,14 @@ var propImports = map[string][]imp{
 		{"C02.10/lifecycle", "C13", "the protocol is told of every arrival and departure exactly once: a second peer is admitted once the first has gone", []string{"C13.1/addPipe", "C13.2/detached", "C13.3/once-each"}},
 	},
 	"C03": {
+		{"C03.16/send-contract", "C17", "a failed transmission leaves the message with its sender at every layer: REQ keeps that message for retransmission, and a buffer released under it is recycled into the next incoming reply", []string{"C17.5/send-contract|internal/core"}},
 		{"C03.14/ownership", "C17", "the request REQ keeps is not released under it (with retries disabled too): a recycled buffer turns the reply being delivered into another message", []string{"C17.1/E5|protocol/req"}},
 		{"C03.13/api-copies", "C01", "the reply handed to the application is a private copy: it is not overwritten by a later message", []string{"C01.8/api-copies"}},
 		{"C03.10/request-state", "C04", "the id of an abandoned request leaves the id table wherever the request is given up (a stale reply must find nothing)", []string{"C04.6/pipe-loss", "C04.7/request-state-transitions"}},
 		{"C03.11/E3", "C11", "request state is accessed under the socket lock", []string{"C11.1/E3|protocol/req", "C11.1/E3|protocol/xreq"}},
 	},
 	"C04": {
+		{"C04.22/transport-leaves-message-intact", "C17", "sending does not rewrite the message: the request kept for retransmission goes out byte-identical the second time", []string{"C17.4/no-write-through"}},
 		{"C04.21/retry-inherited", "C19", "a context opened on the socket retries at the interval configured on the socket, including 0 = never (the interval is what decides whether an unanswered request is sent again)", []string{"C19.4/inheritance|protocol/req"}},
 		{"C04.20/api-copies", "C01", "the request kept for retransmission is a private copy of the bytes the caller passed: the re-send is byte-identical whatever the caller does with its buffer", []string{"C01.8/api-copies"}},
 		{"C04.19/lifecycle", "C13", "REQ is told of every departure of a pipe it was told of: only then is the request that rode it re-sent", []string{"C13.1/addPipe", "C13.2/detached", "C13.3/once-each"}},
@@ -123,6 +126,7 @@ var propImports = map[string][]imp{
 		{"C05.14/ownership", "C17", "the saved route and the reply are not aliased with recycled buffers", []string{"C17.1/E5|protocol/rep", "C17.1/E5|protocol/respondent", "C17.1/E5|protocol/xrep", "C17.1/E5|protocol/xrespondent"}},
 	},
 	"C06": {
+		{"C06.15/unique-primitive", "C01", "MakeUnique copies before it gives up its reference: two contexts making the same publication their own at the same time each end up with an intact private copy", []string{"C01.1/pool|MakeUnique"}},
 		{"C06.14/api-copies", "C01", "a delivered body is a private copy: it does not change when later messages arrive", []string{"C01.8/api-copies"}},
 		{"C06.13/one-connection-per-dialer", "C14", "a dialer re-establishes one connection per loss: a second connection to the same publisher delivers every message twice", []string{"C14.5/redial-after-loss", "C14.2/backoff"}},
 		{"C06.12/send-contract", "C17", "a message shared by all subscriber pipes is released once per pipe, also when a write fails", []string{"C17.5/send-contract|transport"}},
@@ -143,6 +147,8 @@ var propImports = map[string][]imp{
 		{"C08.11/E3", "C11", "peer tables are accessed under the socket lock", []string{"C11.1/E3|protocol/xbus", "C11.1/E3|protocol/xstar"}},
 	},
 	"C09": {
+		{"C09.16/id-freshness", "C13", "a routing word names the connection a request came in on: the id of a connection that has gone is not handed to the next one while replies addressed to it can still be in flight", []string{"C13.8/allocator"}},
+		{"C09.17/raw-fanout", "C07", "a survey device forwards through the raw surveyor socket: its fan-out offers every survey to every pipe whatever the queue length option", []string{"C07.19/raw-fanout"}},
 		{"C09.15/inproc-copies", "C01", "a message crossing an in-process link arrives as header followed by body, in a buffer of its own: a device forwards what it received, so a mangled copy is forwarded mangled", []string{"C01.7/inproc"}},
 		{"C09.13/request-id-marker", "C03", "every request id ends the backtrace: devices stop copying routing words at it", []string{"C03.12/id-end-marker"}},
 		{"C09.12/transport-leaves-message-intact", "C17", "sending a message does not rewrite it: a message shared by reference count (forwarded, broadcast or kept for re-sending) goes out identical on every connection", []string{"C17.4/no-write-through"}},
@@ -154,6 +160,7 @@ var propImports = map[string][]imp{
 		{"C10.12/E10c", "C19", "a queue that a goroutine re-fills under the socket lock has room for it: otherwise that goroutine blocks holding the lock and Close never returns", []string{"C19.2/E10c"}},
 	},
 	"C11": {
+		{"C11.12/forward-copies", "C08", "a message handed to the application and the one forwarded to other peers are separate copies: the application's writes do not race with the senders still transmitting it", []string{"C08.4/star-forward"}},
 		{"C11.10/no-callback-under-lock", "C13", "application hooks are called with no internal lock held (a hook that closes the pipe or uses the socket would deadlock)", []string{"C13.6/hook-no-lock"}},
 		{"C11.9/ownership", "C17", "concurrent users of one socket never end up holding the same message or buffer", []string{"C17.1/E5", "C17.5/send-contract", "C17.7/fresh-backing-per-message"}},
 	},
@@ -179,6 +186,7 @@ var propImports = map[string][]imp{
 		{"C14.7/registration", "C10", "a dialer is registered with its socket, or refused, atomically with the socket's closed state: a dialer added to a closed socket keeps dialling for ever", []string{"C10.3/socket-close|NewDialer", "C10.10/E3b|internal/core.(*socket).NewDialer", "C10.10/E3b|internal/core.(*dialer)"}},
 	},
 	"C16": {
+		{"C16.22/attach", "C13", "a connection that dies right behind a valid handshake is taken off the protocol again: attach and the added flag change under the pipe lock, so the close that follows sees them", []string{"C13.1/addPipe"}},
 		{"C16.19/hop-word", "C09", "the hop count is the whole header word: a peer cannot smuggle a huge count past the limit in its upper bytes", []string{"C09.1/hop-normal-form"}},
 		{"C16.18/queue-room", "C19", "a receiver that re-queues under the socket lock always has room: otherwise one message from a peer blocks it with the lock held and the whole socket stalls", []string{"C19.2/E10c", "C19.2/ranges"}},
 		{"C16.16/no-cross-peer-pollution", "C17", "nothing one peer sends can end up in state kept for another peer (saved routes are private copies)", []string{"C17.1/E5|protocol/"}},
